@@ -24,9 +24,7 @@ Oracles (only what the statement claims):
    A difference that appears only when a *symbolic angular momentum* is replaced by an integer
    (``BlattWeisskopfSquared.evaluate`` switches from the Hankel-function form to a cached
    polynomial that is only equal for z >= 0) is reported under its own kind
-   ``does_not_commute_symbolic_angular_momentum``; the environment variable
-   ``VP_C14_TOLERATE_SYMBOLIC_L=1`` turns it into a label (development aid for looking behind
-   that finding; the proper mechanism is an entry in known_findings.jsonl).
+   ``does_not_commute_symbolic_angular_momentum``.
 2. ``e == e'`` and ``hash(e) == hash(e')`` iff class, sympy arguments and non-sympy attributes
    are equal, over pairs that are identical or differ in exactly one of those.
 3. every node whose class has only sympy fields: ``node.func(*node.args) == node``.
@@ -123,6 +121,13 @@ def fixed_cases(tier):
                           {"name": "q^2_x"}]},
         {**base, "expr": ["cls", "BoostMatrix", [["cls", "NegativeMomentum", [p], {}]], {}]},
         {**base, "expr": ["cls", "EuclideanNorm", [["cls", "ThreeMomentum", [p], {}]], {}]},
+        # witness: ComplexSqrt prints un-parenthesised code when assumptions decide the sign
+        {**base, "expr": ["cls", "Kallen", [["cls", "ComplexSqrt", [["mul", ["num", "2"], ["sym", "s_p"]]], {}],
+                                            ["sym", "y"], ["sym", "z"]], {}]},
+        # witness: cse pulls t**2 (bound integration variable) out of the integrand
+        {**base, "expr": ["cls", "UnevaluatableIntegral",
+                          [["div", ["add", ["pow", ["idx", "t"], 2], ["sym", "x"]], ["add", ["pow", ["idx", "t"], 2], ["num", "1"]]],
+                           ["num", "0"], ["num", "1"]], {"var": "t"}]},
         # witnesses of the symbolic-angular-momentum finding (integer L substituted before / after unfolding)
         {**base, "expr": ["cls", "BlattWeisskopfSquared", [["sym", "x"], ["lsym", "L"]], {}],
          "subs": [{"key": 1, "how": "number", "i": 1, "j": 0}], "pair": {"op": "arg", "i": 0, "j": 0}},
@@ -132,6 +137,13 @@ def fixed_cases(tier):
 
 
 # ----------------------------------------------------------------------- helpers
+def _tolerated(name: str) -> bool:
+    """Development aid: ``VP_C14_TOLERATE=symbolic_L,integral_cse,complexsqrt_code`` turns the named
+    suspected library findings into labels so that one can look behind them. Default: nothing is
+    tolerated (the proper mechanism is an entry in known_findings.jsonl)."""
+    return name in os.environ.get("VP_C14_TOLERATE", "").split(",")
+
+
 class _SkipCase(Exception):
     """A limitation of sympy itself (not of the code under test) makes the case undecidable."""
 
@@ -140,15 +152,22 @@ def _ut(label, fn, *args, **kwargs):
     """`under_test`, except that a RecursionError raised inside sympy's Piecewise machinery
     (``Piecewise.__new__`` -> ``as_set`` -> ``periodicity`` -> ``decompogen`` on univariate
     conditions, reached by nesting Piecewise-valued classes inside relational conditions) is a
-    sympy limitation: the case is skipped and counted."""
+    sympy limitation: the case is skipped and counted. So is sympy's TypeError on ordering nan or
+    non-real numbers."""
     import traceback  # noqa: PLC0415
 
     try:
-        return under_test(label, fn, *args, allowed=(RecursionError,), **kwargs)
+        return under_test(label, fn, *args, allowed=(RecursionError, TypeError), **kwargs)
     except RecursionError as exc:
         files = {fr.filename for fr in traceback.extract_tb(exc.__traceback__)}
         if any(f.endswith("sympy/functions/elementary/piecewise.py") for f in files):
             raise _SkipCase("sympy_RecursionError_in_Piecewise") from exc
+        raise UnderTestError(label, exc) from exc
+    except TypeError as exc:
+        # sympy refuses to order nan / non-real numbers ("Invalid NaN comparison", "Invalid comparison
+        # of non-real ..."): a substituted number made an argument singular -- outside the domain
+        if "Invalid NaN comparison" in str(exc) or "Invalid comparison of non-real" in str(exc):
+            raise _SkipCase("sympy_invalid_comparison_of_nan_or_nonreal") from exc
         raise UnderTestError(label, exc) from exc
 
 
@@ -271,36 +290,47 @@ def _perturbed(data):
 
 
 def _ordering_operands(expr):
-    """Expressions whose *ordering* decides a branch: both sides of every relational and the
-    argument of every ComplexSqrt (which prints as a Piecewise on ``x < 0``)."""
+    """(ordering operands, branch-cut operands): both sides of every relational and the argument
+    of every ComplexSqrt (which prints as a Piecewise on ``x < 0``) decide a branch by *ordering*;
+    arguments of ``log`` and bases of non-integer powers have a *branch cut* on the negative axis."""
     sp = _sp()
     from sympy.core.relational import Relational  # noqa: PLC0415
 
-    ops = []
+    ordering, branch = [], []
     for node in sp.preorder_traversal(expr):
         if isinstance(node, Relational):
-            ops.append(node.lhs - node.rhs)
+            ordering.append(node.lhs - node.rhs)
         elif type(node).__name__ == "ComplexSqrt" and node.args:
-            ops.append(node.args[0])
-    return ops
+            ordering.append(node.args[0])
+        elif isinstance(node, sp.log):
+            branch.append(node.args[0])
+        elif isinstance(node, sp.Pow) and not node.exp.is_integer and not node.base.is_number:
+            branch.append(node.base)
+    return ordering, branch
 
 
 def _hazard_mask(expr, names, data, n_events):
-    """Events at which an ordered comparison receives a complex (or nan) operand: numpy orders
-    complex numbers lexicographically, sympy's cse may rewrite ``-a < 0`` as ``a > 0``, so the
-    value of the generated code is not defined there (input outside the domain of the classes)."""
+    """Events at which the value of the generated code is not well defined (input outside the
+    domain of the classes): an ordered comparison receives a complex or nan operand (numpy orders
+    complex numbers lexicographically and sympy's cse may rewrite ``-a < 0`` as ``a > 0``), or a
+    logarithm / root is taken exactly on its branch cut (the sign of a floating-point zero
+    imaginary part, which depends on the order of operations, then decides between +-i*pi)."""
     np = _np()
-    ops = _ordering_operands(expr)
+    ordering, branch = _ordering_operands(expr)
     mask = np.zeros(n_events, dtype=bool)
-    if not ops:
+    if not ordering and not branch:
         return mask
     try:
-        vals = _lambdify_eval(ops, names, data, cse=False)
+        vals = _lambdify_eval([*ordering, *branch], names, data, cse=False)
     except Exception:  # noqa: BLE001
         return np.ones(n_events, dtype=bool)
-    for v in vals:
+    for i, v in enumerate(vals):
         v = np.asarray(v, dtype=complex)  # noqa: PLW2901
-        bad = ~np.isfinite(v) | (np.abs(v.imag) > 1e-13 * np.maximum(1.0, np.abs(v)))
+        tiny_imag = np.abs(v.imag) <= 1e-13 * np.maximum(1.0, np.abs(v))
+        if i < len(ordering):
+            bad = ~np.isfinite(v) | ~tiny_imag
+        else:
+            bad = ~np.isfinite(v) | (tiny_imag & (v.real <= 0))
         if bad.ndim == 0 or bad.shape[0] != n_events:
             if bad.any():
                 mask[:] = True
@@ -581,8 +611,8 @@ def check_commute(e, d, tree, desc, labels, nontrivial):
     symbolic_l = any(k[0] == "lsym" and v[0] == "int" for k, v, _ in pairs) and any(
         isinstance(n, sp.Sum) for n in sp.preorder_traversal(d)
     )
-    if symbolic_l and os.environ.get("VP_C14_TOLERATE_SYMBOLIC_L"):
-        labels.append("commute:SYMBOLIC_L_DIFFERENCE_TOLERATED_BY_ENV")
+    if symbolic_l and _tolerated("symbolic_L"):
+        labels.append("TOLERATED_BY_ENV:symbolic_L")
         return None
     kind = "does_not_commute_symbolic_angular_momentum" if symbolic_l else f"{mode}_does_not_commute"
     return violation(
@@ -707,19 +737,77 @@ def check_codegen(e, d, tree, labels, nontrivial):
     data = G.batch_data(names, seed=7, n_events=3)
     unprintable = _unprintable_classes(e)
     unfolded = {}
+    has_integral = any(isinstance(n, sp.Integral) for n in sp.preorder_traversal(d))
+    symbolic_sum = any(isinstance(n, sp.Sum) and n.free_symbols for n in sp.preorder_traversal(d) if isinstance(n, sp.Basic))
+    if symbolic_sum:
+        # a sum that stays unevaluated (symbolic angular momentum) is printed by sympy alone, and
+        # sympy's cse moves sub-expressions of the bound summation variable out of the sum
+        labels.append("codegen:skipped_unevaluated_symbolic_sum")
+        return None
     for cse in (False, True):
-        unfolded[cse] = under_test(f"lambdify(doit, cse={cse})", _lambdify_eval, d, names, data, cse=cse)
+        try:
+            unfolded[cse] = _lambdify_eval(d, names, data, cse=cse)
+        except Exception as exc:  # noqa: BLE001
+            if cse and has_integral and False in unfolded:
+                if _tolerated("integral_cse"):
+                    labels.append("TOLERATED_BY_ENV:integral_cse")
+                    return None
+                return violation(
+                    "codegen_cse_breaks_integral", nontrivial, labels, exc_type=type(exc).__name__,
+                    message=str(exc)[:200], works_without_cse=True,
+                    note="cse moves a sub-expression of the bound integration variable out of the integrand",
+                )
+            raise UnderTestError(f"lambdify(doit, cse={cse})", exc) from exc
     slack, ill, n_hazard = _condition_slack(d, names, data, unfolded[True])
     if ill:
         labels.append("codegen:ill_conditioned")
     if n_hazard:
-        labels.append("codegen:complex_operand_of_ordered_comparison")
+        labels.append("codegen:events_masked_complex_ordering_or_branch_cut")
+    csqrt = [n for n in sp.preorder_traversal(d) if type(n).__name__ == "ComplexSqrt" and G.is_library_class(type(n))]
+    if csqrt:
+        # ComplexSqrt.doit() is the identity by design; its explicit form is get_definition()
+        try:
+            explicit = d.replace(
+                lambda n: type(n).__name__ == "ComplexSqrt" and G.is_library_class(type(n)),
+                lambda n: n.get_definition(),
+            )
+            decidable = any(not isinstance(n.get_definition(), sp.Piecewise) for n in csqrt)
+            wants = {cse: _lambdify_eval(explicit, names, data, cse=cse) for cse in (False, True)}
+        except Exception:  # noqa: BLE001  (the reference side: sympy's Piecewise on an exotic argument)
+            labels.append("codegen:complexsqrt_definition_not_evaluable")
+            wants = {}
+        for cse, want in wants.items():
+            same, _, err, shape = _close(unfolded[cse], want, slack)
+            if not same:
+                if decidable and _tolerated("complexsqrt_code"):
+                    labels.append("TOLERATED_BY_ENV:complexsqrt_code")
+                    break
+                return violation(
+                    "codegen_vs_explicit_definition", nontrivial, labels, cse=cse, max_rel_err=err, shape=shape,
+                    complexsqrt_sign_decided_by_assumptions=bool(decidable),
+                )
+        else:
+            if wants:
+                labels.append("codegen:complexsqrt_definition_compared")
     same, n_fin, err, shape = _close(unfolded[False], unfolded[True], slack)
     if not same:
-        return violation("codegen_cse_on_vs_off", nontrivial, labels, max_rel_err=err, shape=shape)
+        decidable = any(
+            type(n).__name__ == "ComplexSqrt" and not isinstance(n.get_definition(), sp.Piecewise)
+            for n in sp.preorder_traversal(d)
+        )
+        if decidable and _tolerated("complexsqrt_code"):
+            labels.append("TOLERATED_BY_ENV:complexsqrt_code")
+            return None
+        return violation("codegen_cse_on_vs_off", nontrivial, labels, max_rel_err=err, shape=shape,
+                         complexsqrt_sign_decided_by_assumptions=bool(decidable))
     labels.append("codegen:nothing_comparable" if n_fin == 0 else "codegen:finite")
     folded_ok = 0
-    for cse in (False, True):
+    folded_has_sum = any(isinstance(n, (sp.Sum, sp.Integral)) and type(n).__name__ != "UnevaluatableIntegral"
+                         for n in sp.preorder_traversal(e) if isinstance(n, sp.Basic))
+    if folded_has_sum:
+        # _SymbolicSum is printed by sympy's own Sum printer, and sympy's cse does not know bound variables
+        labels.append("codegen:folded_contains_sympy_Sum_not_compared")
+    for cse in (False, True) if not folded_has_sum else ():
         try:
             folded = _lambdify_eval(e, names, data, cse=cse)
         except Exception as exc:  # noqa: BLE001
